@@ -103,7 +103,17 @@ def tracker_engine(chk, quick):
         traces.append(t)
     chk.cov["distinct_nontrivial"] += binding
     chk.cov["gated_pairs_excluded_by_a_binding_constraint"] = binding
-    r2.validate_all(chk, traces, "C20")
+    res = r2.validate_all(chk, traces, "C20")
+    # "admitted exactly when ...": a constrained run rejected because an admissible gated pair was not used (the recorded
+    # assignment is not optimal over the admitted pairs) is C20's business if the same history without any table is fine
+    for i, (ok, why, rej) in enumerate(res):
+        if ok or "constraint" in why or not (why & {"optimal", "gate"}):
+            continue
+        kind = ("sort", "visual", "batchsort")[i % 3]
+        t0 = r2.record(chk, f"c20-r2-{i}-free", kind, chk.seed * 1000 + 500 + i, steps=150 if quick else 300, shards=1 + i % 3,
+                       metric="iou" if i % 2 == 0 else "maha", max_idle=3, objects=4, spread=(60, 120)[i % 2], extra=["--jump", "1"])
+        if r2.validate_all(chk, [t0], "C02")[0][0]:
+            chk.violation("c20:admissible-pair-not-used", {"engine": "r2-trace", "trace": str(traces[i]), "rejected": rej[:3000]})
     # non-binding table vs no table: identical records and ids
     for i in range(2 if quick else 20):
         seed = chk.seed * 1000 + 900 + i
